@@ -77,6 +77,8 @@ def legacy_note(chk):
 def run(chk, replay=None):
     tier = chk.tier
     rng = random.Random(chk.seed)
+    if replay and replay.get("case"):
+        print("stored case (the full check is re-run with the same seed):", replay["case"])
     chk.assume(
         "TLC/SANY; SymPy core: Basic.subs/xreplace/__eq__/__hash__/srepr on its own classes, lambdify and numpy for the numeric observation",
         "the instance factory: SymPy fields get symbols / nested instances, non-SymPy fields their default or one alternative of the same type",
